@@ -37,6 +37,11 @@ type Explorer struct {
 	Scenario Scenario
 	Bound    int  // max preemptions (-1 = unbounded)
 	Prune    bool // state-hash pruning (sound only if stateKey captures everything)
+	// SyncOnly restricts context switches to synchronisation operations: a thread that is at a plain
+	// scheduling point (between two statements) always continues. Every interleaving of the blocks
+	// delimited by lock operations is still explored; unsynchronised accesses inside the blocks are the
+	// subject of the separate race pass. This makes unbounded exploration (Bound = -1) feasible.
+	SyncOnly bool
 	Horizon  int
 	Stop     func() bool // deadline
 	Stats    Stats
@@ -144,6 +149,10 @@ func (e *Explorer) explore(prefix []int) {
 
 	for i := len(prefix); i < len(out.Points); i++ {
 		p := out.Points[i]
+
+		if e.SyncOnly && p.RunningEnabled && p.Ops[0] == vsched.OpYield {
+			continue
+		}
 
 		for alt := 1; alt < len(p.Enabled); alt++ {
 			cost := pre[i]
